@@ -407,7 +407,15 @@ func (y *sys) probe() (ok bool, why string) {
 	}
 	// the loop makes progress: with a registered subscription a PublishRequest is
 	// outstanding at the server (or arrives shortly)
-	if n := len(y.c.SubscriptionIDs()); n > 0 {
+	idsCh := make(chan int, 1)
+	go func() { idsCh <- len(y.c.SubscriptionIDs()) }()
+	nreg := 0
+	select {
+	case nreg = <-idsCh:
+	case <-time.After(1500 * time.Millisecond):
+		return false, "SubscriptionIDs() does not return within 1.5 s although no other call is under way"
+	}
+	if n := nreg; n > 0 {
 		if !xsubs.WaitFor(800*time.Millisecond, func() bool { return y.heldCount() > 0 }) {
 			return false, fmt.Sprintf("%d subscriptions are registered but the publish loop sends no PublishRequest", n)
 		}
